@@ -260,6 +260,36 @@ def threshold_history(rng, hid):
     return {"id": hid, "rx": [round(rx[0] * 1e6), round(rx[1] * 1e6)], "range_m": rng_m, "steps": out}
 
 
+def silent_refresh_histories(rng, count):
+    """an aircraft is heard, then - while it is silent - frames arrive that must not count for it: other downlink formats
+    carrying its address bits (all-call replies, the formats 24-31), surveillance replies, squitters of other aircraft,
+    undecodable bytes. The expiry that follows removes it exactly as if they had not come"""
+    out = []
+    for i in range(count):
+        rx = RECEIVERS[0]
+        a, b = rng.sample(range(1, 1 << 24), 2)
+        T = rng.choice((2, 3, 5))
+        early = rng.randrange(1, T)                  # the frames that do not count arrive `early` seconds before the expiry
+        steps = [frame_step(f_ident(rng, a, "SIL%d" % i, df=rng.choice((17, 18))))]
+        if rng.random() < 0.5:
+            steps.append(frame_step(f_vel(rng, a, (0, 100), (1, 200), (0, 5))))
+        steps.append({"op": "tick", "secs": T - early})
+        for _ in range(rng.randrange(1, 4)):
+            df = rng.choice((11, 24, 25, 26, 27, 28, 29, 30, 31, 24, 27, 0, 4, 5, 16, 19, 20, 21))
+            fr = gen.rnd_frame(rng, df)
+            if df == 11 or df >= 24:
+                setf(fr, 8, 24, a)
+            steps.append(frame_step(fr))
+        if rng.random() < 0.5:
+            steps.append(frame_step(gen.rnd_frame(rng, rng.choice((1, 2, 3, 22)), rng.randrange(0, 15))))      # not a frame at all
+        steps.append(frame_step(f_ident(rng, b, "OTH%d" % i)))                                             # another aircraft's squitter
+        steps.append({"op": "tick", "secs": early})
+        steps.append({"op": "prune", "T": T})                                                              # a: silent for T; b: for `early` < T
+        steps.append(frame_step(f_ident(rng, a, "SIL%d" % i)))                                             # heard again: newly added
+        out.append({"id": f"sr{i}", "rx": [round(rx[0] * 1e6), round(rx[1] * 1e6)], "range_m": RANGES_M[1], "steps": steps})
+    return out
+
+
 # ---------------------------------------------------------------------------------------------
 # spec -> impl: histories of the bounded model, concretised
 
@@ -470,6 +500,7 @@ def run(prop, tier, seed, rep, std=True):
     for i in range(4 if tier == "quick" else 60):
         hists.append(neighbour_history(rng, f"n{i}"))
     hists += tie_histories(rng, 60 if tier == "quick" else 600)
+    hists += silent_refresh_histories(rng, 16 if tier == "quick" else 300)
     groups = record(hx, hists)
     events = [e for g in groups for e in g]
     verdicts, st, tr = core.validate_events("Trace_Tracker", events, prop, shards=core.MAX_JVMS,
